@@ -17,8 +17,9 @@ LEVEL_TEXT = ("Machine-checked theorems over the Lean models of Line_Buffer (inp
               "the documented track numbers (C06_star_decimal: every decimal digit string, leading zeros included); a line never changes a track that is not in its track "
               "list, for EVERY text (frame property through all command parsers); blanks before a command are skipped, '|' is skipped, everything after ';' is ignored, a "
               "';' line changes nothing; a multi-track line is the sequence of per-track parses of the same column range with track_offset = index. (2) Whole layouts, for "
-              "command lists of the subset C05 covers (notes a-h with accidental and every duration form, r ^ l o < > Q q C s &; hypothesis CmdsOk: numbers are ints the "
-              "command accepts, & finds its note): C06_layout_run_partial - ANY layout (any blanks/tabs/bars between commands, a separator dropped where the spelling stays "
+              "command lists of the covered subset LCovered = the subset C05 covers (notes a-h with accidental and every duration form, r ^ l o < > Q q C s &) widened in "
+              "Proofs/LayoutCmd by D n and the event commands [ L, ] ( ) with or without number, * @ v p K E M P G t T with number (hypothesis CmdsOk: numbers are "
+              "ints the command accepts, & finds its note): C06_layout_run_partial - ANY layout (any blanks/tabs/bars between commands, a separator dropped where the spelling stays "
               "unambiguous, ';' comments, any split into header / continuation / empty / comment lines, track lists written with letters, digits or *n) addressed to "
               "distinct tracks is accepted and gives every listed track exactly the builder calls of the command list in order, no other track changes; "
               "C06_layout_invariant_partial - two layouts of one command list leave the track the same (same get_events()); C06_multitrack_eq_single_partial - 'AB.. body' "
@@ -26,7 +27,7 @@ LEVEL_TEXT = ("Machine-checked theorems over the Lean models of Line_Buffer (inp
               "the track at position j receives the plain commands and alternative j of every block, equal to its single-track lines, when no alternative contains '/', "
               "';', '}' or NUL and every block has an alternative per track (that hypothesis is defect D16, proved as two counterexamples and recorded as known findings). "
               "Results are stated modulo the source references (line, column) stamped on the track, which necessarily differ between layouts. NOT proved: the same "
-              "statements for the commands outside the covered subset (R ~ \\ _ k V D % [ / ] L * @ v ( ) p K E M P G t T '...'); they are kept as "
+              "statements for the commands outside the covered subset (R ~ \\ \\= _ __ _{..} k V % '...' and the loop break /); they are kept as "
               "C06_full_statement_layout_invariant / C06_full_statement_multitrack_eq_single and decided per generated case by the metamorphic correspondence stream (every "
               "layout of every generated stream parsed by the real code and by the model, the spec demanding equal events per track across layouts and equality with "
               "the meaning of each track's command list).")
@@ -377,6 +378,10 @@ def corpus_streams():
     yield [Seg([0, 1, 2], [("c", o4), ("b", [[n_("c")], [n_("d", a="s")], [n_("g")]]), ("b", [[n_("d"), Cmd("l", L(8))], [], [n_("a", ("F", Num(12), 0))]]), ("c", n_("e")),
                            ("b", [[], [Cmd(">"), n_("f")], []]), ("b", [[n_("g")], [n_("a")], [n_("b")]])])], [
         ["ABC o4{c/d+/g} | {d l8/ /a:12} e", " {/>f/}{g/a/b};x"], ["A o4 c d l8 e g", "B o4 d+ e", " > f a", "C o4 g a:12 e b"]]
+    X = lambda name, v=None: Cmd("x", name, None if v is None else Num(v))
+    evs = [X("tempoBpm", 120), X("ins", 3), X("vol", 12), X("loopStart"), n_("c"), X("volDown"), n_("d"), X("volUp", 2), X("loopEnd", 4), X("segno"), X("pan", -1)]
+    yield [Seg([0, 1], [("c", c_) for c_ in evs])], [
+        ["AB t120 @3 v12 [c(d)2]4 L p-1"], ["B t120|@3\tv12 [ c ( d )2 ]4", " L p-1 ;end", "A t120|@3\tv12 [ c ( d )2 ]4", " L p-1 ;end"]]
     # hexadecimal numbers need their blank
     yield [Seg([0], [("c", n_("g", ("L", Num(12, True), 0))), ("c", n_("e")), ("c", Cmd("x", "vol", Num(10, True))), ("c", n_("a"))])], [
         ["A g$c e v$a a"], ["A g$c|e|v$a|a"], ["A g$c\te v$a", " a"]]
